@@ -338,10 +338,12 @@ PROPS = {
     },
     "C03": {
         "lean_modules": ["TableauVerif.Props.C03", "TableauVerif.Props.C03Frac", "TableauVerif.Props.C03Enum", "TableauVerif.Props.C20Dur"],
-        "oracles": ["c03.parse", "c03.frac", "c03.cmp", "c20.dur", "c03.reject", "c03.enum"],
+        "oracles": ["c03.parse", "c03.frac", "c03.cmp", "c20.dur", "c03.reject", "c03.enum", "c09.doc"],
         "streams": [
             ("corr.xproto.enum", 6000, 200000),
             ("e2e.C03.reject", 800, 30000),
+            # documents: a corrupted scalar at any depth and a corrupted element of a cross-cell list must be rejected
+            ("e2e.C09.documents", 300, 12000, 8),
             ("corr.xproto.duration", 10000, 200000),
             ("corr.xproto.parseFieldValue", 60000, 1500000),
             ("corr.xproto.fraction", 30000, 400000),
